@@ -47,6 +47,12 @@ def check(run, prog, tier):
     run.rule("C11-K", "resonance couplings are computed in floating point whatever number type the positions and dipoles were "
                       "given in: no in-place division or scaling of a value that has the element type of the inputs", minimum=3)
     rule_K(run, prog)
+    run.rule("C11-L", "every line sits at its transition energy: the energy of an aggregate state, from which the Hamiltonian of the "
+                      "calculation is built, is the sum over all molecules of the energy of the level each is in - the ground-state "
+                      "energies of the molecules that are not excited included (finite evaluation, shared with C03-G)", minimum=4)
+    from . import c03
+    from ..report import RuleProxy
+    c03.rule_G(RuleProxy(run, "C11-L", keep=lambda construct, key: construct == "ElectronicState.energy"), prog)
     run.rule("C11-A", "eigenbasis transformations in the aggregate calculation are undone", minimum=4)
     run.rule("C11-B", "half-sided transform is laid on the returned grid", minimum=10)
     run.rule("C11-C", "dipoles enter through scalar products only", minimum=3)
